@@ -26,6 +26,9 @@
 //	file <fkey>
 //	    the declared file's chunk and schema blob reach the index now (after the claim, possibly after
 //	    queries).  Answer: the "ok <anytime> <modtime>" of the permanode whose content it is.
+//	del <pnidx> <claimidx> <date> / deld <delidx> <date>
+//	    a delete claim targeting the <claimidx>-th claim (upload order) of permanode <pnidx>, or the
+//	    <delidx>-th delete claim.  Answer: "ok <anytime> <modtime>" of the permanode it is about.
 //	ar <c|m|C|r> <all|a|b> <limit> <pivothex> [<continuehex>]
 //	    the same with Around=<pivot> (and no continue token unless given).
 package c09
@@ -62,6 +65,11 @@ type world struct {
 	files  map[string]*fileSpec
 	// reuse: the caller-owned query values of the "qr"/"arr" ops
 	reuse map[string]*search.SearchQuery
+	// claimRefs: the claims of every permanode in upload order; delRefs / delRoot: the delete claims in
+	// the order they were issued and the permanode each one is ultimately about
+	claimRefs [][]blob.Ref
+	delRefs   []blob.Ref
+	delRoot   []int
 }
 
 // fileSpec is a declared content file: the file schema blob (and its one chunk) is only handed to
@@ -199,12 +207,59 @@ func showTime(t time.Time, ok bool) string {
 }
 
 // claim signs and uploads a claim dated d; text, if not empty, is how the date is spelled in the blob.
-func (w *world) claim(b *schema.Builder, d time.Time, text string) {
+func (w *world) claim(b *schema.Builder, d time.Time, text string) blob.Ref {
 	b.SetClaimDate(d)
 	if text != "" {
 		b.SetRawStringField("claimDate", text)
 	}
-	w.id.Upload(w.id.Sign(b))
+	return w.id.Upload(w.id.Sign(b))
+}
+
+// pnClaim is claim for a claim of the i-th permanode: its ref is remembered for later delete claims.
+func (w *world) pnClaim(i int, b *schema.Builder, d time.Time, text string) {
+	br := w.claim(b, d, text)
+	w.claimRefs[i] = append(w.claimRefs[i], br)
+}
+
+// del <pnidx> <claimidx> <date>: a delete claim targeting the <claimidx>-th claim of permanode <pnidx>
+// deld <delidx> <date>:         a delete claim targeting the <delidx>-th delete claim (a delete of a delete)
+// Answer: the "ok <anytime> <modtime>" of the permanode this is ultimately about.
+func (w *world) addDel(words []string) string {
+	canon := func(s string) (int, bool) {
+		n, err := strconv.Atoi(s)
+		return n, err == nil && n >= 0 && strconv.Itoa(n) == s
+	}
+	var target blob.Ref
+	var root int
+	var ds string
+	switch {
+	case words[0] == "del" && len(words) == 4:
+		i, ok1 := canon(words[1])
+		c, ok2 := canon(words[2])
+		if !ok1 || !ok2 || i >= len(w.refs) || c >= len(w.claimRefs[i]) {
+			return "bad-op"
+		}
+		target, root, ds = w.claimRefs[i][c], i, words[3]
+	case words[0] == "deld" && len(words) == 3:
+		j, ok := canon(words[1])
+		if !ok || j >= len(w.delRefs) {
+			return "bad-op"
+		}
+		target, root, ds = w.delRefs[j], w.delRoot[j], words[2]
+	default:
+		return "bad-op"
+	}
+	d, text, pres, ok := parseTimeTok(ds)
+	if !ok || d.IsZero() || d.Unix() == 0 {
+		return "bad-op"
+	}
+	if !pres {
+		text = ""
+	}
+	br := w.claim(schema.NewDeleteClaim(target), d, text)
+	w.delRefs = append(w.delRefs, br)
+	w.delRoot = append(w.delRoot, root)
+	return w.times(w.refs[root])
 }
 
 func (w *world) addPN(words []string) string {
@@ -277,23 +332,25 @@ func (w *world) addPN(words []string) string {
 		return "refmismatch"
 	}
 	pn := w.id.Upload(tb)
-	w.pos[pn] = len(w.refs)
+	pi := len(w.refs)
+	w.pos[pn] = pi
 	w.refs = append(w.refs, pn)
+	w.claimRefs = append(w.claimRefs, nil)
 	i := 0
 	if hasDC {
-		w.claim(schema.NewSetAttributeClaim(pn, "dateCreated", dcText), dates[i], dateText[i])
+		w.pnClaim(pi, schema.NewSetAttributeClaim(pn, "dateCreated", dcText), dates[i], dateText[i])
 		i++
 	}
 	for _, tg := range tagl {
 		if tg == "y" {
-			w.claim(schema.NewSetAttributeClaim(pn, "camliNodeType", "foo"), dates[i], dateText[i])
+			w.pnClaim(pi, schema.NewSetAttributeClaim(pn, "camliNodeType", "foo"), dates[i], dateText[i])
 		} else {
-			w.claim(schema.NewAddAttributeClaim(pn, "tag", tg), dates[i], dateText[i])
+			w.pnClaim(pi, schema.NewAddAttributeClaim(pn, "tag", tg), dates[i], dateText[i])
 		}
 		i++
 	}
 	for ; i < len(dates); i++ {
-		w.claim(schema.NewAddAttributeClaim(pn, "extra", fmt.Sprintf("x%d", i)), dates[i], dateText[i])
+		w.pnClaim(pi, schema.NewAddAttributeClaim(pn, "extra", fmt.Sprintf("x%d", i)), dates[i], dateText[i])
 	}
 	return w.times(pn)
 }
@@ -369,7 +426,7 @@ func (w *world) addCC(words []string) string {
 	_, fb := fileBlobs(words[2], ft, ftText, hasFT)
 	w.hasCC[i] = true
 	w.files[words[2]] = &fileSpec{pn: i, ft: ft, ftText: ftText, hasFT: hasFT}
-	w.claim(schema.NewSetAttributeClaim(w.refs[i], "camliContent", fb.BlobRef().String()), d, dText)
+	w.pnClaim(i, schema.NewSetAttributeClaim(w.refs[i], "camliContent", fb.BlobRef().String()), d, dText)
 	return w.times(w.refs[i])
 }
 
@@ -523,7 +580,7 @@ func NewExec() func(w []string) string {
 				return "bad-op"
 			}
 			switch words[0] {
-			case "pn", "q", "ar", "qr", "arr", "cc", "file":
+			case "pn", "q", "ar", "qr", "arr", "cc", "file", "del", "deld":
 			default:
 				return "bad-op"
 			}
@@ -537,6 +594,8 @@ func NewExec() func(w []string) string {
 				return wd.addCC(words)
 			case "file":
 				return wd.addFile(words)
+			case "del", "deld":
+				return wd.addDel(words)
 			}
 			return wd.query(words)
 		})
